@@ -5,7 +5,7 @@
    (one named lemma per leaf, so that a changed leaf breaks exactly that lemma) and instantiates.
    Part 3: the polarity filter. *)
 From Coq Require Import ZArith QArith Qabs Qminmax Bool List Lia Lqa.
-From Aegean Require Import Lib.QBase Lib.Graph Gen.Polarity Model.IslandModel Model.Polarity.
+From Aegean Require Import Lib.QBase Lib.Ext Lib.Graph Gen.Polarity Model.IslandModel Model.Polarity.
 Import ListNotations.
 
 (* ================= generic list / Q facts ================= *)
@@ -387,3 +387,60 @@ Section FilterFacts.
     destruct Hz as [E|(q & E & Hq)]; rewrite E; [apply kept_nan|apply kept_zero; exact Hq].
   Qed.
 End FilterFacts.
+
+(* ================= 4. curvature of the negated image ================= *)
+Section Curvature.
+  (* the rank filters of scipy on one window: exchanging them under negation is a library hypothesis,
+     validated by the harness on every run (windows with NaN and +-inf included) *)
+  Variable maxf minf : list ev -> ev.
+  Hypothesis H_max_neg : forall v, maxf (map neg_ev v) = neg_ev (minf v).
+  Hypothesis H_min_neg : forall v, minf (map neg_ev v) = neg_ev (maxf v).
+  Variable pf tf : fill.
+  Variable pv tv : Z.
+  Variable tlast : bool.
+  Hypothesis H_fill : tf = neg_fill pf.
+  Hypothesis H_val : tv = (- pv)%Z.
+
+  Lemma fill_p_neg : forall x, apply_fill pf (neg_ev x) = neg_ev (apply_fill tf x).
+  Proof. intros x. rewrite <- (neg_fill_invol pf), <- H_fill. apply apply_fill_neg. Qed.
+  Lemma fill_t_neg : forall x, apply_fill tf (neg_ev x) = neg_ev (apply_fill pf x).
+  Proof. intros x. rewrite H_fill. apply apply_fill_neg. Qed.
+
+  Lemma peak_test_neg : forall w c,
+    ev_eqb (maxf (map (apply_fill pf) (map neg_ev w))) (apply_fill pf (neg_ev c)) =
+    ev_eqb (minf (map (apply_fill tf) w)) (apply_fill tf c).
+  Proof.
+    intros w c. rewrite map_map, (map_ext _ _ fill_p_neg), <- (map_map (apply_fill tf) neg_ev).
+    rewrite H_max_neg, fill_p_neg. apply ev_eqb_neg.
+  Qed.
+  Lemma trough_test_neg : forall w c,
+    ev_eqb (minf (map (apply_fill tf) (map neg_ev w))) (apply_fill tf (neg_ev c)) =
+    ev_eqb (maxf (map (apply_fill pf) w)) (apply_fill pf c).
+  Proof.
+    intros w c. rewrite map_map, (map_ext _ _ fill_t_neg), <- (map_map (apply_fill pf) neg_ev).
+    rewrite H_min_neg, fill_t_neg. apply ev_eqb_neg.
+  Qed.
+
+  Lemma curve_at_mirror : forall w c, plateau_at pf tf maxf minf w c = false ->
+    curve_at pf tf pv tv tlast maxf minf (map neg_ev w) (neg_ev c) = (- curve_at pf tf pv tv tlast maxf minf w c)%Z.
+  Proof.
+    intros w c Hpl. unfold curve_at, plateau_at in *. rewrite peak_test_neg, trough_test_neg.
+    destruct (ev_eqb (maxf (map (apply_fill pf) w)) (apply_fill pf c)),
+             (ev_eqb (minf (map (apply_fill tf) w)) (apply_fill tf c)), tlast;
+      cbn [andb] in Hpl; try discriminate Hpl; lia.
+  Qed.
+End Curvature.
+
+Lemma curv_fills_mirror : curv_trough_fill = neg_fill curv_peak_fill.
+Proof. reflexivity. Qed.
+Lemma curv_values_mirror : curv_trough_value = (- curv_peak_value)%Z.
+Proof. reflexivity. Qed.
+
+Theorem curvature_mirrored : forall maxf minf : list ev -> ev,
+  (forall v, maxf (map neg_ev v) = neg_ev (minf v)) -> (forall v, minf (map neg_ev v) = neg_ev (maxf v)) ->
+  forall w c, plateau_gen maxf minf w c = false ->
+  curve_gen maxf minf (map neg_ev w) (neg_ev c) = (- curve_gen maxf minf w c)%Z.
+Proof.
+  intros maxf minf Hmax Hmin w c Hpl. unfold curve_gen.
+  apply (curve_at_mirror maxf minf Hmax Hmin _ _ _ _ _ curv_fills_mirror curv_values_mirror w c Hpl).
+Qed.
